@@ -1,8 +1,11 @@
 /-
-F52 — a zero cell pixel size (a terminal reporting fewer pixels than columns, e.g. XPixel = 50 for
-80 columns, gives `cellPixW = 50/80 = 0`) makes `resizeImage` divide by zero.  The model returns the
-panic value for every image and box; the harness observes the panic on the real code
-(`dims … 0 …` lines and the end-to-end `kresize` line).  Recorded as a known finding.
+F52 (repaired in /repo by `fix: resizing a kitty or sixel image no longer divides by zero …`, round 2) — a zero cell pixel
+size (a terminal reporting fewer pixels than columns, e.g. XPixel = 50 for 80 columns, gave `cellPixW = 50/80 = 0`) makes
+`resizeImage` divide by zero: the model returns the panic value for every image and box.  Since the repair the callers never
+pass a zero (`(*Vaxis).cellPixelSize` ≥ 1: `Props.C20Ext.term_cell_pos`, `no_panic_term`; the block renderers pass the literals
+1×2), so these theorems now describe the private function outside its callers' range; the harness still observes the panic when
+it calls `resizeImage` directly (`dims … 0 …` lines, model ≡ code only), and corpus/C20/F52.ops (the former end-to-end witness)
+passes.
 -/
 import VaxisModel.Lemmas.ImageFit
 
